@@ -970,3 +970,117 @@ def c06_sigma_search(rp, seed):
         if bad:
             return r2, msg
     return None
+
+
+# ---------------------------------------------------------------- C07
+@checker("c07_zero")
+def c07_zero(rp):
+    got = real_rate_concrete(rp)
+    p = {k: num(v) for k, v in rp["params"].items()}
+    tau = p["tau"] if rp.get("t") is None else num(rp["t"])
+    name = rp["model"]
+    total, mag = 0.0, 0.0
+    svar, theta = [], []
+    for i, t in enumerate(rp["game"]):
+        s_i = sum(num(q[1]) ** 2 + tau * tau for q in t)
+        d_i = sum(got[i][j][0] - num(q[0]) for j, q in enumerate(t))
+        svar.append(s_i)
+        total += d_i / s_i
+        mag += abs(d_i / s_i)
+        if rp.get("clause") == "canary":
+            total += d_i - d_i / s_i
+    allow = 1e-9 * max(mag, 1e-12)
+    if name.startswith("Thurstone"):
+        r = _vec(rp.get("ranks")) or ([-x for x in _vec(rp.get("scores"))] if rp.get("scores") else list(range(len(svar))))
+        k = 2 if name.endswith("Part") else 1
+        for i in range(len(svar)):
+            for q in range(i + 1, len(svar)):
+                if r[i] == r[q]:
+                    c2 = k * k * (svar[i] + svar[q] + 2 * p["beta"] ** 2)
+                    allow += 2 * p["kappa"] / c2
+    return abs(total) > allow, f"{name}: precision-weighted sum of mu changes = {total!r} (allowed {allow!r})"
+
+
+@searcher("c07_zero")
+def c07_zero_search(rp, seed):
+    rnd = random.Random(seed)
+    sizes = [len(x) for x in rp["game"]]
+    for _ in range(300):
+        r2 = dict(rp, game=rand_game(rnd, sizes), params=_std_params(tau=rnd.choice([0.0, 25 / 300])))
+        try:
+            bad, msg = c07_zero(r2)
+        except Exception:  # noqa: BLE001
+            continue
+        if bad:
+            return r2, msg
+    return None
+
+
+# ---------------------------------------------------------------- C05
+def _rate_vals(rp, ranks):
+    r2 = dict(rp, ranks=[enc(x) for x in ranks], scores=None)
+    return real_rate_concrete(r2)
+
+
+@checker("c05_dir")
+def c05_dir(rp):
+    """direction-of-learning clauses on the real rate() for one game"""
+    name = rp["model"]
+    gm = [[(num(q[0]), num(q[1])) for q in t] for t in rp["game"]]
+    n = len(gm)
+    p = {k: num(v) for k, v in rp["params"].items()}
+    tau = p["tau"]
+    ranks = _vec(rp.get("ranks")) or list(range(n))
+    tol = lambda x: 1e-9 * (1 + abs(x))
+    got = _rate_vals(rp, ranks)
+    clause = rp.get("clause")
+    if clause == "canary":
+        # wrong claim: the last team gains
+        i = max(range(n), key=lambda k: ranks[k])
+        return any(got[i][j][0] < gm[i][j][0] for j in range(len(gm[i]))), "last team loses mu (canary claimed it gains)"
+    best = [i for i in range(n) if all(ranks[i] < ranks[q] for q in range(n) if q != i)]
+    worst = [i for i in range(n) if all(ranks[i] > ranks[q] for q in range(n) if q != i)]
+    for i in best:
+        for j in range(len(gm[i])):
+            if got[i][j][0] < gm[i][j][0] - tol(gm[i][j][0]):
+                return True, f"{name}: team {i} finished alone in first place but player {j}'s mu went {gm[i][j][0]!r} -> {got[i][j][0]!r} (ranks {ranks})"
+    for i in worst:
+        for j in range(len(gm[i])):
+            if got[i][j][0] > gm[i][j][0] + tol(gm[i][j][0]):
+                return True, f"{name}: team {i} finished alone in last place but player {j}'s mu went {gm[i][j][0]!r} -> {got[i][j][0]!r} (ranks {ranks})"
+    for i in range(n):
+        for j in range(len(gm[i]) - 1):
+            a = (got[i][j][0] - gm[i][j][0]) * (gm[i][j + 1][1] ** 2 + tau * tau)
+            b = (got[i][j + 1][0] - gm[i][j + 1][0]) * (gm[i][j][1] ** 2 + tau * tau)
+            if abs(a - b) > 1e-7 * (abs(a) + abs(b)) + 1e-12:
+                return True, f"{name}: team {i} members {j},{j + 1} do not move in proportion to their variance: {a!r} vs {b!r}"
+    if n == 2:
+        w, d, l = _rate_vals(rp, [0, 1]), _rate_vals(rp, [0, 0]), _rate_vals(rp, [1, 0])
+        for j in range(len(gm[0])):
+            x = (l[0][j][0], d[0][j][0], w[0][j][0], gm[0][j][0])
+            if not (x[0] <= x[1] + tol(x[1]) and x[1] <= x[2] + tol(x[2]) and x[0] <= x[3] + tol(x[3]) and x[3] <= x[2] + tol(x[2])):
+                return True, f"{name}: two-team game, team 0 player {j}: loss/draw/win posterior mu {x[:3]} prior {x[3]}"
+        for j in range(len(gm[1])):
+            x = (w[1][j][0], d[1][j][0], l[1][j][0], gm[1][j][0])
+            if not (x[0] <= x[1] + tol(x[1]) and x[1] <= x[2] + tol(x[2]) and x[0] <= x[3] + tol(x[3]) and x[3] <= x[2] + tol(x[2])):
+                return True, f"{name}: two-team game, team 1 player {j}: loss/draw/win posterior mu {x[:3]} prior {x[3]}"
+    return False, "direction clauses hold"
+
+
+@searcher("c05_dir")
+def c05_dir_search(rp, seed):
+    rnd = random.Random(seed)
+    sizes = [len(x) for x in rp["game"]]
+    n = len(sizes)
+    for k in range(1500):
+        spread = rnd.choice([1, 1, 4, 12])
+        gm = [[[enc(rnd.uniform(25 - 10 * spread, 25 + 10 * spread)), enc(rnd.choice([0.3, 2.0, 8.0]))] for _ in range(m)] for m in sizes]
+        ranks = [rnd.choice(range(n)) for _ in range(n)] if k % 2 else list(range(n))
+        r2 = dict(rp, game=gm, ranks=[enc(x) for x in ranks], params=_std_params(tau=rnd.choice([0.0, 25 / 300])))
+        try:
+            bad, msg = c05_dir(r2)
+        except Exception:  # noqa: BLE001
+            continue
+        if bad:
+            return r2, msg
+    return None
